@@ -197,12 +197,25 @@ void Groups::evalArguments( int argc, char* argv[]) noexcept( false)
    for (auto ai = alp.begin(); ai != alp.end(); ++ai)
    {
       auto  result = Handler::ArgResult::unknown;
+      // evalSingleArgument() may advance the iterator to the value of the
+      // argument, so remember what kind of element was passed
+      auto const  element_type = ai->mElementType;
       for (auto & stored_group : mArgGroups)
       {
          result = stored_group.mpArgHandler->evalSingleArgument( ai, alp.end());
          if (result != Handler::ArgResult::unknown)
          {
             usage_printed |= stored_group.mpArgHandler->usagePrinted();
+            // an argument identified by one handler ends the list of separate
+            // values of an argument of any other handler
+            if (element_type != detail::ArgListElement::Type::value)
+            {
+               for (auto & other_group : mArgGroups)
+               {
+                  if (&other_group != &stored_group)
+                     other_group.mpArgHandler->mpLastArg = nullptr;
+               } // end for
+            } // end if
             break;   // for
          } // end if
       } // end for
